@@ -503,7 +503,7 @@ Qed.
 
 (* ---------------------------------------------------------------------------------------------------- *)
 (* the palette tables are what the register writes store: the table read back as a register byte is the byte
-   written (BGP), resp. agrees with it on the three fields an object colour can select (OBP0 / OBP1) *)
+   written (BGP, OBP0, OBP1 alike) *)
 
 Lemma write_bgp_sweep :
   forallb (fun v => (pal_reg (write_bgp v) =? Z.of_N v)%Z &&
@@ -517,32 +517,17 @@ Proof.
   unfold pal_ok. lia.
 Qed.
 
-Definition obp_check (v : N) : bool :=
-  forallb (fun k =>
-    let p := write_obp (mkPal k 0 0 0) v in
-    (c1 p <? 4) && (c2 p <? 4) && (c3 p <? 4) &&
-    forallb (fun c => (shade_of (pal_reg p) (Z.of_N c) =? shade_of (Z.of_N v) (Z.of_N c))%Z) [1; 2; 3])
-    (upto 4).
-
-Lemma write_obp_sweep : forallb obp_check bytes = true.
+Lemma write_obp_sweep :
+  forallb (fun v => (pal_reg (write_obp v) =? Z.of_N v)%Z &&
+                    (c0 (write_obp v) <? 4) && (c1 (write_obp v) <? 4) && (c2 (write_obp v) <? 4) &&
+                    (c3 (write_obp v) <? 4)) bytes = true.
 Proof. vm_compute. reflexivity. Qed.
 
-Lemma write_obp_spec old v : v < 256 -> c0 old < 4 ->
-  pal_ok (write_obp old v) /\
-  forall c, (1 <= c <= 3)%Z -> shade_of (pal_reg (write_obp old v)) c = shade_of (Z.of_N v) c.
+(* after the repair the object palettes are stored exactly like BGP: the table read back is the byte written *)
+Lemma write_obp_spec v : v < 256 -> pal_reg (write_obp v) = Z.of_N v /\ pal_ok (write_obp v).
 Proof.
-  intros Hv H0. pose proof (sweep_bytes _ write_obp_sweep v Hv) as H. unfold obp_check in H.
-  pose proof (sweep_upto 4 _ H (c0 old) H0) as H1. cbv beta zeta in H1.
-  change (write_obp (mkPal (c0 old) 0 0 0) v) with (write_obp old v) in H1.
-  apply andb_prop in H1. destruct H1 as [H1 Hsh]. apply andb_prop in H1. destruct H1 as [H1 H3].
-  apply andb_prop in H1. destruct H1 as [H1 H2].
-  split.
-  - unfold pal_ok. cbn [write_obp c0]. repeat split; [exact H0 | | |]; apply N.ltb_lt; assumption.
-  - intros c Hc. rewrite forallb_forall in Hsh.
-    specialize (Hsh (Z.to_N c)). replace (Z.of_N (Z.to_N c)) with c in Hsh by lia.
-    apply Z.eqb_eq. apply Hsh.
-    assert (Hcase : (c = 1 \/ c = 2 \/ c = 3)%Z) by lia.
-    destruct Hcase as [ -> | [ -> | -> ] ]; cbn; auto.
+  intros Hv. pose proof (sweep_bytes _ write_obp_sweep v Hv) as H. cbv beta in H.
+  unfold pal_ok. lia.
 Qed.
 
 (* ---------------------------------------------------------------------------------------------------- *)
